@@ -666,6 +666,8 @@ Array<T>& Array<T>::insert(int k, const T& x)
 	int s = h->s;
 	if (k == -1)
 		k = n;
+	// x may refer to an element of this array: remember its index, the storage may move below
+	int j = (&x >= _a && &x < _a + n) ? int(&x - _a) : -1;
 	if (n < s) {}
 	else
 	{
@@ -683,7 +685,10 @@ Array<T>& Array<T>::insert(int k, const T& x)
 	if (k < n) {
 		memmove((char*)_a + (k + 1) * sizeof(T), (void*)(_a + k), (n - k) * sizeof(T));
 	}
-	asl_construct_copy(_a + k, x);
+	if (j < 0)
+		asl_construct_copy(_a + k, x);
+	else
+		asl_construct_copy(_a + k, _a[j < k ? j : j + 1]);
 	h->n = n+1;
 	return *this;
 }
